@@ -29,7 +29,7 @@ cp /repo/go.sum harness/go.sum
 (cd harness && go build -o ../build/constgen ./cmd/constgen) || { echo "setup: constgen build failed" >&2; exit 1; }
 if [ -d harness/cmd/lockgen ]; then
   (cd harness && go build -o ../build/lockgen ./cmd/lockgen) || { echo "setup: lockgen build failed" >&2; exit 1; }
-  (cd harness && ../build/lockgen /repo ../coq/Generated/Locks.v) || { echo "setup: lockgen failed" >&2; exit 1; }
+  (cd harness && ../build/lockgen /repo ../coq/Generated/Locks.v ../build/locks.json) || { echo "setup: lockgen failed" >&2; exit 1; }
 fi
 build/constgen /repo coq/Generated/Consts.v || { echo "setup: constgen failed" >&2; exit 1; }
 # 3. Coq: full .vo build (never -vos)
